@@ -140,6 +140,61 @@ def c_traj(ctx, case):
              "empty-cluster" if empty_seen else None, "kind:" + case["kind"])
 
 
+def g_far(draw):
+    c = gen.kmeans_data(draw, max_rows=60 if gen.big() else 36, min_rows=6)
+    if c["kind"] == "grid":
+        c["kind"] = "grid-shifted"
+    X = c["X"]
+    spread = float(np.abs(X - X.mean(axis=0)).max()) + 1e-300
+    F = X.shape[1]
+    r = gen.rng(draw)
+    # the whole data set sits 1e3 .. 1e8 spreads away from the origin (per feature, either sign)
+    far = spread * 10.0 ** gen.choice(draw, [3, 4, 5, 6, 7, 8]) * r.choice([-1.0, 1.0], F) * r.uniform(0.5, 1.0, F)
+    if F >= 2 and gen.boolean(draw):
+        far[int(r.integers(0, F))] = 0.0  # one feature stays near the origin
+    c["X"] = X + far[None, :]
+    idx = r.choice(X.shape[0], size=c["k"], replace=X.shape[0] < c["k"])
+    c["init"] = {"method": "array", "init": c["X"][idx] + c["scale"] * r.normal(0, 0.3, (c["k"], F)), "seed": 0}
+    c["K"] = gen.integer(draw, 1, 4)
+    c["how"] = gen.choice(draw, ["plain", "plain", "fortran", "strided", "list"])
+    c["dask"] = gen.boolean(draw)
+    c["isolate"], c["order_seed"] = gen.boolean(draw), gen.integer(draw, 0, 999)
+    c["chunks"] = gen.composition(draw, X.shape[0], max_parts=6)
+    return c
+
+
+@REG.obligation("far_from_the_origin", g_far, quick=250, thorough=5000)
+def c_far(ctx, case):
+    """The same statements for data whose distance from the origin is 1e3..1e8 times their spread (squared norms
+    would cancel; differences do not): centroid = mean of its nearest rows, reported criterion = mean squared
+    distance, descent.  Tolerances follow the rounding of differences (eps * offset * spread), not of squares."""
+    X, K, k = case["X"], case["K"], case["k"]
+    n, F = X.shape
+    cents, crit = impl_trajectory(case, K)
+    eps = np.finfo(float).eps
+    sc = float(np.abs(X).max())
+    c0 = X.mean(axis=0)
+    spread = float(np.abs(X - c0).max()) + 1e-300
+    d_prev_true = None
+    for j in range(1, K + 1):
+        new, counts, d_prev, margin, lab = ref.kmeans_step(X, cents[j - 1])
+        if margin < 1e-3:
+            ctx.discard("assignment not decided by a clear margin")
+        if (counts == 0).any():
+            ctx.discard("empty cluster")
+        ctx.close(cents[j] - c0, new - c0, "centroid = mean of its nearest rows, relative to the data mean (iteration %d)" % j,
+                  rtol=1e-9, atol=8 * n * eps * sc)
+        ctx.close(crit[j], d_prev, "average_min_distance after %d iteration(s)" % j, rtol=1e-9,
+                  atol=64 * F * eps * sc * spread)
+        if d_prev_true is not None and d_prev > d_prev_true * (1 + 1e-9) + 64 * F * eps * sc * spread:
+            ctx.fail("distortion rose from %.12g to %.12g at iteration %d" % (d_prev_true, d_prev, j - 1),
+                     "distortion-increase")
+        d_prev_true = d_prev
+    ctx.stat_max("offset / spread", sc / spread)
+    ctx.note(k >= 2 and sc / spread >= 1e5, "offset/spread:1e%d" % int(np.floor(np.log10(sc / spread))),
+             "dask" if case["dask"] else "numpy", "kind:" + case["kind"])
+
+
 def g_stop(draw):
     slow = gen.choice(draw, [False, True, False])
     c = gen.kmeans_data(draw, max_rows=80 if gen.big() else 50, min_rows=12, slow=slow)
